@@ -104,3 +104,167 @@ func VerifC48_wrongType() {
 	vrt.Assert(err != nil, "C48/wrong-signature-refused")
 	vrt.Assert(cbs.AddFilter(99, func(s *bfe_basic.Session) int { return BfeHandlerGoOn }) != nil, "C48/unknown-point-refused")
 }
+
+// ---------------------------------------------------------------- focused checks (seeded-change review)
+
+// modC48 is a module instance: several instances of one module type register the same method.
+type modC48 struct {
+	id      int
+	verdict int
+	resp    *bfe_http.Response
+	calls   *[]int
+}
+
+func (mo *modC48) onSession(s *bfe_basic.Session) int { *mo.calls = append(*mo.calls, mo.id); return mo.verdict }
+func (mo *modC48) onRequest(r *bfe_basic.Request) (int, *bfe_http.Response) {
+	*mo.calls = append(*mo.calls, mo.id)
+	return mo.verdict, mo.resp
+}
+func (mo *modC48) onForward(r *bfe_basic.Request) int { *mo.calls = append(*mo.calls, mo.id); return mo.verdict }
+func (mo *modC48) onResponse(r *bfe_basic.Request, res *bfe_http.Response) int {
+	*mo.calls = append(*mo.calls, mo.id)
+	return mo.verdict
+}
+
+// filterOfC48 returns the callback of the right signature for the point: a method value of mo
+// (kind 0) or a closure made by one factory function (kind 1).
+func filterOfC48(point int, mo *modC48, kind int) interface{} {
+	switch point {
+	case HandleAccept, HandleHandshake, HandleFinish:
+		if kind == 0 {
+			return mo.onSession
+		}
+		return sessionFactoryC48(mo)
+	case HandleBeforeLocation, HandleFoundProduct, HandleAfterLocation:
+		if kind == 0 {
+			return mo.onRequest
+		}
+		return requestFactoryC48(mo)
+	case HandleForward:
+		if kind == 0 {
+			return mo.onForward
+		}
+		return forwardFactoryC48(mo)
+	}
+	if kind == 0 {
+		return mo.onResponse
+	}
+	return responseFactoryC48(mo)
+}
+
+//go:noinline
+func sessionFactoryC48(mo *modC48) func(s *bfe_basic.Session) int {
+	return func(s *bfe_basic.Session) int { *mo.calls = append(*mo.calls, mo.id); return mo.verdict }
+}
+
+//go:noinline
+func requestFactoryC48(mo *modC48) func(r *bfe_basic.Request) (int, *bfe_http.Response) {
+	return func(r *bfe_basic.Request) (int, *bfe_http.Response) {
+		*mo.calls = append(*mo.calls, mo.id)
+		return mo.verdict, mo.resp
+	}
+}
+
+//go:noinline
+func forwardFactoryC48(mo *modC48) func(r *bfe_basic.Request) int {
+	return func(r *bfe_basic.Request) int { *mo.calls = append(*mo.calls, mo.id); return mo.verdict }
+}
+
+//go:noinline
+func responseFactoryC48(mo *modC48) func(r *bfe_basic.Request, res *bfe_http.Response) int {
+	return func(r *bfe_basic.Request, res *bfe_http.Response) int {
+		*mo.calls = append(*mo.calls, mo.id)
+		return mo.verdict
+	}
+}
+
+func dispatchC48(hl *HandlerList, point int) (int, *bfe_http.Response) {
+	switch point {
+	case HandleAccept, HandleHandshake:
+		return hl.FilterAccept(&bfe_basic.Session{}), nil
+	case HandleFinish:
+		return hl.FilterFinish(&bfe_basic.Session{}), nil
+	case HandleBeforeLocation, HandleFoundProduct, HandleAfterLocation:
+		return hl.FilterRequest(&bfe_basic.Request{})
+	case HandleForward:
+		return hl.FilterForward(&bfe_basic.Request{}), nil
+	}
+	return hl.FilterResponse(&bfe_basic.Request{}, &bfe_http.Response{}), nil
+}
+
+func isRequestPointC48(point int) bool {
+	return point == HandleBeforeLocation || point == HandleFoundProduct || point == HandleAfterLocation
+}
+
+// VerifC48_sameCode: the filters of a chain are distinct func VALUES that share their code: the same
+// method of 2..3 module instances, or closures made by one factory. Every registered filter is a
+// filter of its own: it runs, in registration order, and its verdict counts.
+func VerifC48_sameCode() {
+	point := pointsC48[vrt.Choose("point", len(pointsC48))]
+	kind := vrt.Choose("kind", 2)
+	n := vrt.Range("instances", 2, 3)
+	var calls []int
+	var mods [3]*modC48
+	cbs := NewBfeCallbacks()
+	for i := 0; i < n; i++ {
+		v := vrt.Int("verdict")
+		vrt.Assume(v >= BfeHandlerFinish && v <= BfeHandlerClose)
+		mods[i] = &modC48{id: i, verdict: v, resp: &bfe_http.Response{StatusCode: 300 + i}, calls: &calls}
+		vrt.Assert(cbs.AddFilter(point, filterOfC48(point, mods[i], kind)) == nil, "C48/same-code-filter-registered")
+	}
+	got, gotResp := dispatchC48(cbs.GetHandlerList(point), point)
+	stop := n
+	for i := n - 1; i >= 0; i-- {
+		if mods[i].verdict != BfeHandlerGoOn {
+			stop = i
+		}
+	}
+	wantCalls := stop + 1
+	if stop == n {
+		wantCalls = n
+	}
+	vrt.Assert(len(calls) == wantCalls, "C48/same-code-every-filter-runs")
+	for j := 0; j < len(calls) && j < 3; j++ {
+		vrt.Assert(calls[j] == j, "C48/same-code-registration-order")
+	}
+	if stop == n {
+		vrt.Assert(got == BfeHandlerGoOn, "C48/same-code-all-continue")
+	} else {
+		vrt.Assert(got == mods[stop].verdict, "C48/same-code-stopping-verdict")
+		if isRequestPointC48(point) {
+			vrt.Assert(gotResp == mods[stop].resp, "C48/same-code-stopping-response")
+		}
+	}
+}
+
+// VerifC48_lateRegistration: a chain of 0..1 filters is run, then another filter is registered at the
+// same point (AddFilter reports success) and the chain is run again: the second run includes the late
+// filter, in registration order, and its verdict counts.
+func VerifC48_lateRegistration() {
+	point := pointsC48[vrt.Choose("point", len(pointsC48))]
+	early := vrt.Range("early", 0, 1)
+	var calls []int
+	cbs := NewBfeCallbacks()
+	if early == 1 {
+		m0 := &modC48{id: 0, verdict: BfeHandlerGoOn, calls: &calls}
+		vrt.Assert(cbs.AddFilter(point, filterOfC48(point, m0, 0)) == nil, "C48/late-first-registered")
+	}
+	hl := cbs.GetHandlerList(point)
+	got, _ := dispatchC48(hl, point)
+	vrt.Assert(got == BfeHandlerGoOn && len(calls) == early, "C48/late-first-run")
+
+	v := vrt.Int("verdict")
+	vrt.Assume(v >= BfeHandlerFinish && v <= BfeHandlerClose)
+	m1 := &modC48{id: 1, verdict: v, resp: &bfe_http.Response{StatusCode: 403}, calls: &calls}
+	vrt.Assert(cbs.AddFilter(point, filterOfC48(point, m1, 1)) == nil, "C48/late-filter-registered")
+	calls = nil
+	got, gotResp := dispatchC48(cbs.GetHandlerList(point), point)
+	vrt.Assert(len(calls) == early+1, "C48/late-filter-runs")
+	if len(calls) == early+1 {
+		vrt.Assert(calls[early] == 1 && (early == 0 || calls[0] == 0), "C48/late-registration-order")
+	}
+	vrt.Assert(got == v, "C48/late-filter-verdict")
+	if isRequestPointC48(point) && v != BfeHandlerGoOn {
+		vrt.Assert(gotResp == m1.resp, "C48/late-filter-response")
+	}
+}
